@@ -302,9 +302,23 @@ func (m *Machine) StepNoBoundary() StepInfo {
 	return si
 }
 
-// IsHaltStep decides from the bus history whether a Step executed HALT.
+// IsHaltStep decides from the bus history whether a Step executed HALT: nothing but the opcode fetch of
+// 76h, PC left on that opcode. An implementation that skips index prefixes it ignores and executes the
+// HALT behind them in the same Step fetches DD/FD bytes first: also a HALT Step, PC on the 76h.
 func IsHaltStep(log []Acc, pcBefore, pcAfter uint16) bool {
-	return len(log) == 1 && log[0].Kind == MR && log[0].Addr == pcBefore && log[0].Val == 0x76 && pcAfter == pcBefore
+	n := len(log)
+	if n == 0 || n > 4 {
+		return false
+	}
+	for i, a := range log {
+		if a.Kind != MR || a.Addr != pcBefore+uint16(i) {
+			return false
+		}
+		if i < n-1 && a.Val != 0xdd && a.Val != 0xfd {
+			return false
+		}
+	}
+	return log[n-1].Val == 0x76 && pcAfter == pcBefore+uint16(n-1)
 }
 
 // Restore models a crash of the host with only durable state surviving: the
